@@ -89,7 +89,10 @@ func c10one(t *testing.T, out *verifh.Out, r *rand.Rand, dir string) {
 	}
 	cfg := vConfig(local, dir)
 	cfg.SemiSync = semi
-	cfg.ReplicationRepairAggressiveMode = r.Intn(2) == 0
+	// a family the product of the dimensions hits too rarely: a replica whose SQL error comes back on every start, aggressive
+	// repair, and a statement of the reset method whose reply is lost every time (it takes effect, the method reports failure)
+	focus := r.Intn(8) == 0
+	cfg.ReplicationRepairAggressiveMode = r.Intn(2) == 0 || focus
 	cfg.ReplicationRepairMaxAttempts = 1 + r.Intn(2)
 	cfg.ReplicationRepairCooldown = 60 * time.Second
 	cfg.WaitReplicationStartTimeout = 2 * time.Second
@@ -116,7 +119,11 @@ func c10one(t *testing.T, out *verifh.Out, r *rand.Rand, dir string) {
 		nd.SuperReadOnly = nd.ReadOnly
 		nd.Offline = r.Intn(4) == 0
 		nd.SemiSlave = r.Intn(2) == 0
-		switch r.Intn(8) {
+		kindOf := r.Intn(8)
+		if focus && h == hosts[1] {
+			kindOf = 3
+		}
+		switch kindOf {
 		case 0: // stale master
 			nd.Repl = nil
 		case 1: // replicating from another node / from a decoy
@@ -126,8 +133,11 @@ func c10one(t *testing.T, out *verifh.Out, r *rand.Rand, dir string) {
 			}
 		case 2: // stopped
 			nd.Repl.IO, nd.Repl.SQL = false, false
-		case 3: // temporary error
+		case 3: // temporary error (half of the time one that comes back on every start: the offending row is still there)
 			nd.Repl.SQL, nd.Repl.SQLErrno = false, 1062
+			if r.Intn(2) == 0 || focus {
+				nd.StickySQLErrno = 1062
+			}
 		case 4: // permanent error
 			nd.Repl.IO, nd.Repl.IOErrno = false, 1236
 		case 5: // wrong source and in error
@@ -149,6 +159,18 @@ func c10one(t *testing.T, out *verifh.Out, r *rand.Rand, dir string) {
 			dropHost = local
 		}
 	}
+	resets := map[string][]int64{}
+	starts := map[string][]int64{}
+	stickyHost, stickyOp, stickyMode := "", "", "err:1105"
+	if focus {
+		fault = true
+		stickyHost, stickyOp, stickyMode = hosts[1], []string{"change_source", "start_replica", "set_online"}[r.Intn(3)], "lost:1105"
+		passes = 8 + r.Intn(4)
+	} else if fault && r.Intn(3) == 0 {
+		stickyMode = []string{"err:1105", "lost:1105"}[r.Intn(2)]
+		stickyHost, stickyOp = hosts[1+r.Intn(n-1)], []string{"start_replica", "start_replica", "change_source"}[r.Intn(3)]
+		passes = 6 + r.Intn(4)
+	}
 	for p := 0; p < passes; p++ {
 		if p > 0 {
 			time.Sleep([]time.Duration{0, 61 * time.Second, 61 * time.Second}[r.Intn(3)])
@@ -162,7 +184,11 @@ func c10one(t *testing.T, out *verifh.Out, r *rand.Rand, dir string) {
 		}
 		wd.ClearFaults()
 		fh, fo := "", ""
-		if fault && r.Intn(2) == 0 {
+		if stickyHost != "" {
+			// a statement that fails on this server every time, for the whole run
+			fh, fo = stickyHost, stickyOp
+			wd.AddFault(fh, fo, 0, stickyMode)
+		} else if fault && r.Intn(2) == 0 {
 			fh = hosts[1+r.Intn(n-1)]
 			fo = []string{"set_ro_super", "stop_replica", "change_source", "start_replica", "reset_replica_all", "set_offline"}[r.Intn(6)]
 			wd.AddFault(fh, fo, 1, "err:1105")
@@ -189,6 +215,13 @@ func c10one(t *testing.T, out *verifh.Out, r *rand.Rand, dir string) {
 			executedBefore[h] = wd.Nodes[h].Executed
 		}
 		now := time.Now()
+		// configuration resets the server has executed since this host's repair bookkeeping was (re)started
+		for _, h := range hosts[1:] {
+			if _, ok := app.replRepairState[h]; !ok {
+				resets[h] = nil
+				starts[h] = nil
+			}
+		}
 		wd.TakeLog()
 		panicked := ""
 		func() {
@@ -227,6 +260,25 @@ func c10one(t *testing.T, out *verifh.Out, r *rand.Rand, dir string) {
 				}
 			}
 		}
+		for _, e := range evs {
+			if e.Kind == "sql" && e.Op == "reset_replica_all" && (e.Res == "ok" || strings.HasPrefix(e.Res, "lost")) {
+				resets[e.Host] = append(resets[e.Host], e.T)
+			}
+		}
+		for _, h := range hosts[1:] {
+			for _, a := range c10acts(evs, h) {
+				if a == "startSlave" { // a lone START REPLICA = the start-method of the repair
+					starts[h] = append(starts[h], now.UnixNano())
+				}
+			}
+		}
+		resetsNow, startsNow := map[string][]int64{}, map[string][]int64{}
+		for h, v := range resets {
+			resetsNow[h] = append([]int64{}, v...)
+		}
+		for h, v := range starts {
+			startsNow[h] = append([]int64{}, v...)
+		}
 		decoyHits := []string{}
 		selfSource := []string{}
 		masterWrites := []string{}
@@ -248,7 +300,7 @@ func c10one(t *testing.T, out *verifh.Out, r *rand.Rand, dir string) {
 		out.Line(map[string]any{"k": "c10pass", "cfg": map[string]any{"aggressive": cfg.ReplicationRepairAggressiveMode, "max_attempts": cfg.ReplicationRepairMaxAttempts, "cooldown": int64(cfg.ReplicationRepairCooldown)},
 			"cs": vCSList(cs), "master": master, "hosts": hosts, "now": now.UnixNano(), "repair_before": before, "repair_after": after,
 			"acts": perHost, "raw_ops": rawOps, "decoy_hits": decoyHits, "self_source": selfSource, "master_writes": masterWrites, "fault": map[string]string{"host": fh, "op": fo},
-			"panic": panicked, "pass": p, "passes": passes, "start_clears": startClears, "faulty_run": fault, "nodes_after": wd.Digest(), "executed_before": executedBefore, "dropped": map[bool]string{true: dropHost, false: ""}[dropAt >= 0 && p >= dropAt], "local": local})
+			"panic": panicked, "pass": p, "passes": passes, "start_clears": startClears, "faulty_run": fault, "nodes_after": wd.Digest(), "executed_before": executedBefore, "dropped": map[bool]string{true: dropHost, false: ""}[dropAt >= 0 && p >= dropAt], "local": local, "resets": resetsNow, "starts": startsNow})
 		_ = strings.Join
 		if panicked != "" {
 			break
